@@ -40,10 +40,11 @@ from lib import c08lib as L
 
 PROP = "C08"
 THEOREMS = ["C08_pairs_disjoint", "C08_pairs_disjoint_uniform", "C08_pairs_loop_complete",
-            "C08_swap_prob", "C08_swap_prob_temperatures", "C08_exchange_state",
-            "C08_exchange_aligned", "C08_advance_total", "C08_advance_shape",
+            "C08_swap_prob", "C08_swap_prob_temperatures", "C08_swap_prob_real", "C08_exchange_state",
+            "C08_exchange_aligned", "C08_swap_round_messages", "C08_advance_total", "C08_advance_shape",
             "C08_steps_diamond", "C08_schedule_independent", "C08_schedule_independent_pt",
-            "C08_reference_run_decides", "C08_shutdown_terminates"]
+            "C08_reference_run_decides", "C08_return_chains_pinned_refuted",
+            "C08_shutdown_terminates"]
 
 HEADER = """From Coq Require Import List Arith ZArith QArith.
 From IT Require Import Model.Tempering.
@@ -163,10 +164,10 @@ def base_job(r, kind, N, calls, dp, seed, ladder=None):
         "quad": [[str(a), str(m)] for a, m in quad],
         "starts": [[str(Fraction(r.randint(-6, 6), 2)) for _ in range(dim)] for _ in range(N)],
         "calls": calls, "total_steps": total_steps_of(calls),
-        "choices": [r.randint(0, 1 << 16) for _ in range(ns * (N + 1) + 4)],
+        "choices": [r.randint(0, 1 << 16) for _ in range(ns * (2 * N + 1) + 4)],
         "draws": [r.randint(0, 1 << 16) for _ in range(ns * (N + 1) + 4)],
-        "unis": [str(u) for u in gen_unis(r, ns * (N // 2 + 1) + 4)],
-        "timeout": 25,
+        "unis": [str(u) for u in gen_unis(r, ns * (2 * N + 1) + 4)],
+        "timeout": 60,
     }
     return job
 
@@ -232,7 +233,7 @@ def gen_jobs(tier):
 
 
 # ---------------------------------------------------------------- running the code
-def run_job(job, outer_timeout=150):
+def run_job(job, outer_timeout=600):
     """One runner subprocess per configuration (all its delay patterns, sequentially).
     The whole process group is killed on the outer timeout or on any exit path."""
     with tempfile.TemporaryDirectory(prefix="c08_") as td:
@@ -490,6 +491,12 @@ def run(rep: C.Report, tier: str) -> int:
     t0 = time.time()
     with ThreadPoolExecutor(max_workers=12) as ex:
         outs = list(ex.map(run_job, jobs))
+    # a timeout is only believed if it repeats with a three times longer limit
+    # (machine load must not turn into a verdict about the code)
+    for ji, out in enumerate(outs):
+        if any(r_["status"] in ("timeout", "runner-failed") for r_ in out["runs"]):
+            rep.count("re-run after timeout")
+            outs[ji] = run_job(dict(jobs[ji], timeout=3 * jobs[ji]["timeout"]), outer_timeout=1800)
     rep.coverage["implementation_runs_wall_s"] = round(time.time() - t0, 1)
 
     coq_cases = []       # (job index, text)
@@ -675,7 +682,10 @@ def run(rep: C.Report, tier: str) -> int:
     return rep.finish(
         level="proof",
         checker_cmd="make -C /verif/coq (coqc 8.16.1, full .vo) + coqc on coq/gen/C08/*.v (vm_compute)",
-        trusted_base=C.KERNEL_TB + ["axioms: none (all C08 theorems are closed under the global context)",
+        trusted_base=C.KERNEL_TB + ["axioms: none for all C08 theorems (closed under the global context) except "
+                                    "C08_swap_prob_real, which speaks about Coq's real exp and uses the standard "
+                                    "library's ClassicalDedekindReals.sig_forall_dec / sig_not_dec, "
+                                    "functional_extensionality_dep and Classical_Prop.classic",
                                     "multiprocessing pipes are FIFO per connection (model assumption)"],
         rule="real ParallelTempering (fork, pipes) x N in 1..6 x swap_interval in {1,3,10,>n} (+ >50 cycles) x "
              "display_progress in {True,False} x call shapes (advance / take_steps+swap+advance / two advances / "
